@@ -281,9 +281,9 @@ class SqliteStorage(AbstractStorage):
         query = """UPDATE events
                    SET starttime = ?, endtime = ?, datastr = ?
                    WHERE id = (
-                        SELECT id FROM events WHERE endtime =
-                            (SELECT max(endtime) FROM events WHERE bucketrow =
-                                (SELECT rowid FROM buckets WHERE id = ?) LIMIT 1))"""
+                        SELECT id FROM events WHERE bucketrow =
+                            (SELECT rowid FROM buckets WHERE id = ?)
+                        ORDER BY starttime DESC, endtime DESC, id DESC LIMIT 1)"""
         self.conn.execute(query, [starttime, endtime, datastr, bucket_id])
         self.conditional_commit(1)
         return True
